@@ -34,6 +34,34 @@ CHECKS = {
         "Trusted: own Earley recogniser as viable-prefix oracle; recovery run under the cfg(grmtools_verif) hooks (budget override, expansion cap).",
         "DESIGN.md section 5, C04",
     ),
+    "C05": (
+        "property-based testing: reference LR driver over the public action/goto API replays every reported repair sequence at the error point and follows the first one; tree and later errors compared",
+        "exploration",
+        "Generated grammars (with and without conflicts) x erroneous inputs x token-cost functions: every reported sequence must apply and repair under replay semantics; continuation (later errors, final tree with zero-length faulty leaves for inserts) must equal the driver's.",
+        "Trusted: 60-line reference driver and replay semantics (recov.rs). Recovery runs under the cfg(grmtools_verif) hooks (budget override, expansion cap 1500; capped runs are not judged). Tables that can reduce forever without consuming input are excluded (open finding C07-nonconsuming-reduce-loop).",
+        "DESIGN.md section 5, C05",
+    ),
+    "C06": (
+        "property-based testing: exhaustive uniform-cost enumeration of all minimum-cost repairs under replay semantics as reference model; set equality + ordering clauses",
+        "exploration",
+        "Same domain as C05 with shorter inputs: the reported list must equal the complete set of minimum-cost, maximally-ranked repairs found by an exhaustive reference search (node budget 60000), with the documented ordering.",
+        "Trusted: reference enumeration in recov.rs. Order among sequences of equal group and length not compared. Errors whose reference search exceeds its budget are not judged (counted).",
+        "DESIGN.md section 5, C06",
+    ),
+    "C07": (
+        "property-based testing: invariants over (value, errors) for long multi-error inputs; watchdog + address-space limit for termination",
+        "exploration",
+        "Generated cycle-free grammars x inputs with up to 6 error sites x cost functions (1..255): strictly increasing error positions at least 3 lexemes apart, only the last error unrepaired, value iff all repaired, clean value equals recovery-off parse.",
+        "Termination observed through a 20 s watchdog (re-confirmed 200 s) and a 3 GB address-space limit in the killable worker. One open finding (non-consuming reduce loop) is excluded by a table-level witness search and demonstrated by a stored replay.",
+        "DESIGN.md section 5, C07",
+    ),
+    "C08": (
+        "property-based testing: parse_actions with recording closures; log must be the post-order of the returned tree; spans recomputed from leaves; differential against parse_map",
+        "exploration",
+        "Generated grammars rich in empty productions x inputs with gapped spans, recovery off and on: one action call per reduction in bottom-up left-to-right order, arguments/parameter/span exact, same tree as the generic parse-tree mode.",
+        "Trusted: the recording harness. Position of a zero-length span not asserted; comparison with parse_map under recovery only when no error has more than one repair sequence.",
+        "DESIGN.md section 5, C08",
+    ),
     "C16": (
         "property-based testing: cross-checking every public state-graph / state-table query per state, token and rule; closed states against a reference LR(1) closure",
         "exploration",
